@@ -68,16 +68,67 @@ struct Ctx {
     owner: String,      // impl ToTokens for X  /  fn name
     fn_name: String,
     arms: Vec<String>,  // enclosing match arm patterns, outermost first
-    lets: Vec<(String, Vec<String>, String)>, // (name, method chain, text)
+    scruts: Vec<String>, // scrutinee of the match each enclosing arm belongs to
+    guards: Vec<String>, // guard of each enclosing arm ("" if none)
+    conds: Vec<(String, bool)>, // enclosing `if cond` with the branch taken
+    lets: Vec<(String, Vec<String>, String, String)>, // (name, method chain, text, type annotation)
     loops: Vec<String>, // enclosing `for pat in expr`
     out: Vec<String>,
+    delegations: Vec<String>,
+}
+
+fn closure_field_path(c: &syn::ExprClosure) -> Option<String> {
+    // |x| &x.name  /  |x| x.name.clone()  -> ".name"
+    let param = match c.inputs.first() {
+        Some(syn::Pat::Ident(pi)) => pi.ident.to_string(),
+        Some(syn::Pat::Type(pt)) => match &*pt.pat {
+            syn::Pat::Ident(pi) => pi.ident.to_string(),
+            _ => return None,
+        },
+        _ => return None,
+    };
+    fn go(e: &syn::Expr, param: &str, acc: &mut Vec<String>) -> bool {
+        match e {
+            syn::Expr::Reference(r) => go(&r.expr, param, acc),
+            syn::Expr::Paren(p) => go(&p.expr, param, acc),
+            syn::Expr::Field(f) => {
+                if !go(&f.base, param, acc) {
+                    return false;
+                }
+                match &f.member {
+                    syn::Member::Named(n) => acc.push(n.to_string()),
+                    syn::Member::Unnamed(i) => acc.push(i.index.to_string()),
+                }
+                true
+            }
+            syn::Expr::MethodCall(m) if m.method == "clone" && m.args.is_empty() => go(&m.receiver, param, acc),
+            syn::Expr::Path(p) => p.path.is_ident(param),
+            _ => false,
+        }
+    }
+    let mut acc = vec![];
+    if go(&c.body, &param, &mut acc) {
+        Some(acc.iter().map(|x| format!(".{}", x)).collect::<Vec<_>>().join(""))
+    } else {
+        None
+    }
 }
 
 fn method_chain(e: &syn::Expr, acc: &mut Vec<String>) {
     match e {
         syn::Expr::MethodCall(m) => {
             method_chain(&m.receiver, acc);
-            acc.push(m.method.to_string());
+            let mut name = m.method.to_string();
+            if let Some(syn::Expr::Closure(c)) = m.args.first() {
+                match closure_field_path(c) {
+                    Some(p) => name = format!("{}({})", name, p),
+                    None => name = format!("{}(?)", name),
+                }
+            } else if !m.args.is_empty() {
+                let a = &m.args;
+                name = format!("{}[{}]", name, quote::quote!(#a).to_string());
+            }
+            acc.push(name);
         }
         syn::Expr::Call(c) => {
             if let syn::Expr::Path(p) = &*c.func {
@@ -128,11 +179,65 @@ impl<'ast> Visit<'ast> for Ctx {
         self.owner = prev.1;
         self.lets = prev.2;
     }
-    fn visit_arm(&mut self, a: &'ast syn::Arm) {
-        let p = &a.pat;
-        self.arms.push(quote::quote!(#p).to_string());
-        syn::visit::visit_arm(self, a);
-        self.arms.pop();
+    fn visit_expr_match(&mut self, m: &'ast syn::ExprMatch) {
+        let sc = &m.expr;
+        let sc_text = quote::quote!(#sc).to_string();
+        self.visit_expr(&m.expr);
+        for a in &m.arms {
+            let p = &a.pat;
+            self.arms.push(quote::quote!(#p).to_string());
+            self.scruts.push(sc_text.clone());
+            self.guards.push(match &a.guard {
+                Some((_, g)) => quote::quote!(#g).to_string(),
+                None => String::new(),
+            });
+            if let Some((_, g)) = &a.guard {
+                self.visit_expr(g);
+            }
+            self.visit_expr(&a.body);
+            self.arms.pop();
+            self.scruts.pop();
+            self.guards.pop();
+        }
+    }
+    fn visit_expr_if(&mut self, i: &'ast syn::ExprIf) {
+        let c = &i.cond;
+        let c_text = quote::quote!(#c).to_string();
+        self.visit_expr(&i.cond);
+        self.conds.push((c_text.clone(), true));
+        self.visit_block(&i.then_branch);
+        self.conds.pop();
+        if let Some((_, e)) = &i.else_branch {
+            self.conds.push((c_text, false));
+            self.visit_expr(e);
+            self.conds.pop();
+        }
+    }
+    fn visit_expr_method_call(&mut self, m: &'ast syn::ExprMethodCall) {
+        if m.method == "to_tokens" && self.fn_name == "to_tokens" {
+            let r = &m.receiver;
+            let mut s = String::new();
+            let _ = write!(
+                s,
+                "{{\"owner\":{},\"fn\":{},\"line\":{},\"arms\":[{}],\"scruts\":[{}],\"guards\":[{}],\"conds\":[{}],\"recv\":{}}}",
+                esc(&self.owner),
+                esc(&self.fn_name),
+                m.method.span().start().line,
+                self.arms.iter().map(|a| esc(a)).collect::<Vec<_>>().join(","),
+                self.scruts.iter().map(|a| esc(a)).collect::<Vec<_>>().join(","),
+                self.guards.iter().map(|a| esc(a)).collect::<Vec<_>>().join(","),
+                self.conds.iter().map(|(c, b)| format!("[{},{}]", esc(c), b)).collect::<Vec<_>>().join(","),
+                esc(&quote::quote!(#r).to_string())
+            );
+            self.delegations.push(s);
+        }
+        syn::visit::visit_expr_method_call(self, m);
+    }
+    fn visit_block(&mut self, b: &'ast syn::Block) {
+        // lexical scoping of `let`s: names bound inside a block are not visible after it
+        let n = self.lets.len();
+        syn::visit::visit_block(self, b);
+        self.lets.truncate(n);
     }
     fn visit_expr_for_loop(&mut self, f: &'ast syn::ExprForLoop) {
         let (p, e) = (&f.pat, &f.expr);
@@ -144,16 +249,23 @@ impl<'ast> Visit<'ast> for Ctx {
         if let Some(init) = &l.init {
             let p = &l.pat;
             let mut name = quote::quote!(#p).to_string();
+            let mut ty = String::new();
             if let syn::Pat::Type(pt) = &l.pat {
                 let pp = &pt.pat;
                 name = quote::quote!(#pp).to_string();
+                let t = &pt.ty;
+                ty = quote::quote!(#t).to_string();
             }
             let mut chain = vec![];
             method_chain(&init.expr, &mut chain);
             let e = &init.expr;
             let mut text = quote::quote!(#e).to_string();
             text.truncate(400);
-            self.lets.push((name.replace("mut ", ""), chain, text));
+            let is_mut = name.starts_with("mut ");
+            if is_mut {
+                ty = format!("mut {}", ty);
+            }
+            self.lets.push((name.replace("mut ", ""), chain, text, ty));
         }
         syn::visit::visit_local(self, l);
     }
@@ -163,16 +275,19 @@ impl<'ast> Visit<'ast> for Ctx {
             let mut s = String::new();
             let _ = write!(
                 s,
-                "{{\"macro\":{},\"owner\":{},\"fn\":{},\"line\":{},\"arms\":[{}],\"loops\":[{}],\"lets\":[{}],\"tokens\":",
+                "{{\"macro\":{},\"owner\":{},\"fn\":{},\"line\":{},\"arms\":[{}],\"scruts\":[{}],\"guards\":[{}],\"conds\":[{}],\"loops\":[{}],\"lets\":[{}],\"tokens\":",
                 esc(&name),
                 esc(&self.owner),
                 esc(&self.fn_name),
                 m.path.segments.last().unwrap().ident.span().start().line,
                 self.arms.iter().map(|a| esc(a)).collect::<Vec<_>>().join(","),
+                self.scruts.iter().map(|a| esc(a)).collect::<Vec<_>>().join(","),
+                self.guards.iter().map(|a| esc(a)).collect::<Vec<_>>().join(","),
+                self.conds.iter().map(|(c, b)| format!("[{},{}]", esc(c), b)).collect::<Vec<_>>().join(","),
                 self.loops.iter().map(|a| esc(a)).collect::<Vec<_>>().join(","),
                 self.lets
                     .iter()
-                    .map(|(n, c, t)| format!("{{\"name\":{},\"chain\":[{}],\"text\":{}}}", esc(n), c.iter().map(|x| esc(x)).collect::<Vec<_>>().join(","), esc(t)))
+                    .map(|(n, c, t, ty)| format!("{{\"name\":{},\"chain\":[{}],\"text\":{},\"ty\":{}}}", esc(n), c.iter().map(|x| esc(x)).collect::<Vec<_>>().join(","), esc(t), esc(ty)))
                     .collect::<Vec<_>>()
                     .join(",")
             );
@@ -188,16 +303,53 @@ fn main() {
     let args: Vec<String> = std::env::args().collect();
     let src = std::fs::read_to_string(&args[1]).expect("read source");
     let file = syn::parse_file(&src).expect("parse");
-    let mut c = Ctx { owner: String::new(), fn_name: String::new(), arms: vec![], lets: vec![], loops: vec![], out: vec![] };
+    let mut c = Ctx { owner: String::new(), fn_name: String::new(), arms: vec![], scruts: vec![], guards: vec![], conds: vec![], lets: vec![], loops: vec![], out: vec![], delegations: vec![] };
     c.visit_file(&file);
     // enum variants (for emitter-agreement rules)
     let mut enums = vec![];
     for item in &file.items {
         if let syn::Item::Enum(e) = item {
             let vs: Vec<String> = e.variants.iter().map(|v| esc(&v.ident.to_string())).collect();
-            enums.push(format!("{{\"name\":{},\"variants\":[{}]}}", esc(&e.ident.to_string()), vs.join(",")));
+            let ps: Vec<String> = e
+                .variants
+                .iter()
+                .map(|v| {
+                    let fs: Vec<String> = v
+                        .fields
+                        .iter()
+                        .map(|f| {
+                            let t = &f.ty;
+                            format!("[{},{}]", esc(&f.ident.as_ref().map(|i| i.to_string()).unwrap_or_default()), esc(&quote::quote!(#t).to_string()))
+                        })
+                        .collect();
+                    format!("[{}]", fs.join(","))
+                })
+                .collect();
+            enums.push(format!("{{\"name\":{},\"variants\":[{}],\"payloads\":[{}]}}", esc(&e.ident.to_string()), vs.join(","), ps.join(",")));
         }
     }
-    let out = format!("{{\"file\":{},\"templates\":[{}],\"enums\":[{}]}}", esc(&args[1]), c.out.join(","), enums.join(","));
+    let mut structs = vec![];
+    for item in &file.items {
+        if let syn::Item::Struct(st) = item {
+            let fs: Vec<String> = st
+                .fields
+                .iter()
+                .enumerate()
+                .map(|(n, f)| {
+                    let t = &f.ty;
+                    format!("[{},{}]", esc(&f.ident.as_ref().map(|i| i.to_string()).unwrap_or(n.to_string())), esc(&quote::quote!(#t).to_string()))
+                })
+                .collect();
+            structs.push(format!("{{\"name\":{},\"fields\":[{}]}}", esc(&st.ident.to_string()), fs.join(",")));
+        }
+    }
+    let out = format!(
+        "{{\"file\":{},\"templates\":[{}],\"delegations\":[{}],\"enums\":[{}],\"structs\":[{}]}}",
+        esc(&args[1]),
+        c.out.join(","),
+        c.delegations.join(","),
+        enums.join(","),
+        structs.join(",")
+    );
     std::fs::write(&args[2], out).expect("write");
 }
